@@ -81,7 +81,7 @@ func c05NOwners(r *kit.Rand) []schedulingv1alpha1.ReservationOwner {
 func c05NGenRsv(r *kit.Rand, i int, nodes []string) *schedulingv1alpha1.Reservation {
 	alloc := corev1.ResourceList{
 		corev1.ResourceCPU:    resource.MustParse(kit.Pick(r, []string{"2", "4", "6", "8"})),
-		corev1.ResourceMemory: resource.MustParse(kit.Pick(r, []string{"4Gi", "8Gi", "16Gi"})),
+		corev1.ResourceMemory: resource.MustParse(kit.Pick(r, []string{"4Gi", "4.5Gi", "8Gi", "16Gi"})),
 	}
 	if r.Pct(25) {
 		alloc[c05GPUName] = resource.MustParse(kit.Pick(r, []string{"1", "2"}))
@@ -125,7 +125,7 @@ func c05NGenPod(r *kit.Rand, i int, rsvNames []string) *c05NPod {
 		req[corev1.ResourceCPU] = resource.MustParse(kit.Pick(r, []string{"500m", "1", "2", "3", "4"}))
 	}
 	if r.Pct(80) {
-		req[corev1.ResourceMemory] = resource.MustParse(kit.Pick(r, []string{"1Gi", "2Gi", "4Gi", "8Gi"}))
+		req[corev1.ResourceMemory] = resource.MustParse(kit.Pick(r, []string{"0.5Gi", "1Gi", "1.5Gi", "2Gi", "4Gi", "8Gi"}))
 	}
 	if r.Pct(15) {
 		req[c05GPUName] = resource.MustParse("1")
@@ -384,6 +384,42 @@ func TestVerifC05Nominate(t *testing.T) {
 			// reservation has allocated; then the reservation Filter runs. Filter passed => some reservation
 			// the Filter considered lets the preemptor in: not Restricted, or in every restricted dimension
 			// max(0, sum(assigned) - preemptible) + request <= reserved.
+			// checkLedger: every live reservation reports as allocated the summed requests of its assigned pods
+			// in its reserved dimensions (the questions asked by Filter / dry runs must not change that)
+			checkLedger := func(where string) {
+				for _, x := range rsvs {
+					ri := cache.reservationInfos[x.res.UID]
+					if x.gone || ri == nil {
+						continue
+					}
+					dims, ok := c05Dims(ri.Reservation)
+					if !ok {
+						continue
+					}
+					want := corev1.ResourceList{}
+					for p := range ri.AssignedPods {
+						for n, qn := range reqOf(p) {
+							if dims[n] {
+								want[n] = c05Add(want[n], qn)
+							}
+						}
+					}
+					names := map[corev1.ResourceName]bool{}
+					for n := range want {
+						names[n] = true
+					}
+					for n := range ri.Allocated {
+						names[n] = true
+					}
+					c.Count("nominate_ledger_checks", 1)
+					for n := range names {
+						g, wq := ri.Allocated[n], want[n]
+						if g.Cmp(wq) != 0 {
+							c.Fail("C05/ledger/allocated", "%s: reservation %s(%s) reports Allocated[%s]=%s but its %d assigned pods request %s in the reserved dimensions {%s}", where, x.res.Name, x.res.UID, n, g.String(), len(ri.AssignedPods), wq.String(), c05DimsStr(dims))
+						}
+					}
+				}
+			}
 			dryRun := func(step int) {
 				// pairs (preemptor class, restricted reservation) that plausibly match (80%), or any pair
 				type pair struct {
@@ -474,6 +510,20 @@ func TestVerifC05Nominate(t *testing.T) {
 				}
 				victim := &corev1.Pod{ObjectMeta: metav1.ObjectMeta{Namespace: "default", Name: "nominated-victim", UID: types.UID(fmt.Sprintf("victim-%d", step))},
 					Spec: corev1.PodSpec{Containers: []corev1.Container{{Name: "c0", Resources: corev1.ResourceRequirements{Requests: vreq}}}}}
+				// half of the dry runs (when the reservation has an assigned pod) remove a pod that IS assigned to
+				// the reservation instead: the credited amount is that pod's request
+				assignedVictim := false
+				if as := liveAssigned(res.UID, ""); len(as) > 0 && r.Bool() {
+					for _, np2 := range pods {
+						if np2.pod.UID == as[0] && !np2.deleted {
+							victim, assignedVictim = np2.pod, true
+							vreq = corev1.ResourceList{}
+							for n, qn := range np2.req {
+								vreq[n] = qn
+							}
+						}
+					}
+				}
 				refreshSnapshot()
 				cs := framework.NewCycleState()
 				if _, _, st := pl.BeforePreFilter(ctx, cs, q); !st.IsSuccess() {
@@ -503,9 +553,11 @@ func TestVerifC05Nominate(t *testing.T) {
 					return
 				}
 				live := cache.getReservationInfoByUID(res.UID)
-				_ = podStore.Add(victim)
-				pl.nominator.AddNominatedReservation(victim, node, live)
-				_ = podStore.Delete(victim)
+				if !assignedVictim {
+					_ = podStore.Add(victim)
+					pl.nominator.AddNominatedReservation(victim, node, live)
+					_ = podStore.Delete(victim)
+				}
 				nodeInfo, _ := lister.Get(node)
 				victimInfo, err := framework.NewPodInfo(victim)
 				if err != nil {
@@ -516,8 +568,14 @@ func TestVerifC05Nominate(t *testing.T) {
 				}
 				fst := pl.Filter(ctx, cs, q, nodeInfo)
 				pl.AddPod(ctx, cs, q, victimInfo, nodeInfo)
-				pl.DeleteNominatedReservePodOrReservation(victim)
+				if !assignedVictim {
+					pl.DeleteNominatedReservePodOrReservation(victim)
+				}
 				pl.DeleteNominatedReservePodOrReservation(q)
+				if assignedVictim {
+					c.Count("preempt_dryrun_assigned_victim", 1)
+				}
+				checkLedger(fmt.Sprintf("step %d after a preemption dry run (victim assigned=%v)", step, assignedVictim))
 				// oracle
 				lets := false
 				for _, ri := range considered {
